@@ -123,6 +123,7 @@ func c17Monitor(args []string) int {
 			rep.Cases++
 			us := m.StringUci()
 			uciSet[us] = true
+			uciSet[strings.ToLower(us)] = true // the promotion letter is accepted in either case (UCI writes it in lower case)
 			// the same generator object is used for other work between two parses (as the engine does with its
 			// generators): the parsers' answers must not depend on what the object did before
 			switch rng.Intn(6) {
@@ -176,7 +177,7 @@ func c17Monitor(args []string) int {
 			if rng.Chance(15) {
 				s += "q"
 			}
-			if !uciSet[s] {
+			if !uciSet[s] && !uciSet[strings.ToLower(s)] {
 				rep.Cases++
 				if got := mg.GetMoveFromUci(p, s); got != MoveNone {
 					rep.Violate("uci-illegal-accepted", map[string]interface{}{"fen": fen, "string": s}, "parsed as "+got.StringUci())
